@@ -40,7 +40,11 @@ _COLS = ['p', 'q', 'r', 's', 't', 'u']
 
 
 def probes(ctx):
-    return []
+    fa = {'rows': ['a'], 'cols': ['p'], 'dtypes': ['int64'], 'cells': [[1]], 'lay': 0}
+    fb = {'rows': ['b'], 'cols': ['q'], 'dtypes': ['int64'], 'cells': [[2]], 'lay': 0}
+    fz = {'rows': ['c', 'd'], 'cols': [], 'dtypes': [], 'cells': [[], []], 'lay': 0}
+    base = {'op': 'frame_concat', 'seed': 1, 'axis': 0, 'fill': None, 'collide': False, 'index_arg': None, 'generator_input': False, 'consolidate': False}
+    return [dict(base, union=False, frames=[fa, fb]), dict(base, union=True, frames=[fa, fz])]
 
 
 def _tame(v):
